@@ -78,7 +78,7 @@ std::string randomGraphOp(NifFile& nif, std::mt19937_64& rng);
 // Abstract view of saved bytes, read by the independent header parser and a walk over the size table. When `model` is
 // given (the in-memory model right after the save) reference/string-index fields are masked at the offsets recorded
 // while Put()-ing a clone of model block i, and their values are read from the file.
-std::string fileAbstract(const std::string& bytes, NifFile* model, ContentIds& cids);
+std::string fileAbstract(const std::string& bytes, NifFile* model, ContentIds& cids, NifFile* locator = nullptr);
 std::string saveToString(NifFile& nif, bool optimize, bool sort);
 int loadFromString(NifFile& nif, const std::string& bytes, bool terrain = false);
 std::string samplePath(const std::string& name);
